@@ -441,6 +441,9 @@ def _online_collect(v, runs, pid, sc=None):
             raise HarnessError("online run %s: TLC did not complete: %s\n%s" % (r["name"], t.error, t.out[-1500:]))
         if r["verdict"] is None:
             raise HarnessError("online run %s produced no verdict" % r["name"])
+        for rj in t.rejects:
+            if rj["why"].startswith("HARNESS") and rj["ev"] == "Model":
+                raise HarnessError("online run %s: %s" % (r["name"], rj["why"]))
         v.add_tlc([t])
         v.traces += 1
         v.evaluations += r["verdict"]["k"]
